@@ -206,6 +206,10 @@ def gen_lccb_pair(rng):
         if len(pos) >= 2:
             p, q = rng.sample(pos, 2)
             b["dims"][p[0]][p[1]][1], b["dims"][q[0]][q[1]][1] = b["dims"][q[0]][q[1]][1], b["dims"][p[0]][p[1]][1]
+    if rng.random() < 0.15:
+        # a differing tile bound at one position (the step stays): the strides there are not common
+        p = rng.choice(pos)
+        b["dims"][p[0]][p[1]][0] = b["dims"][p[0]][p[1]][0] + rng.choice([1, 2])
     if rng.random() < 0.2:
         # dynamic outermost bound in one dim of both
         d = rng.randrange(len(a["dims"]))
